@@ -410,8 +410,13 @@ class Check:
         'coverage': cov, 'assumptions': list(assumptions), 'wall_s': round(wall, 2),
         'violations': n_viol,
     }
-    os.makedirs(os.path.join(VERIF, 'evidence'), exist_ok=True)
-    with open(os.path.join(VERIF, 'evidence', self.pid + '.json'), 'w') as f:
+    if getattr(self, 'debug_no_lean', False):
+      # a debugging run without the Lean obligations is not evidence for a proof-level claim
+      target = os.path.join(VERIF, 'replays', self.pid, 'debug_no_lean_evidence.json')
+    else:
+      os.makedirs(os.path.join(VERIF, 'evidence'), exist_ok=True)
+      target = os.path.join(VERIF, 'evidence', self.pid + '.json')
+    with open(target, 'w') as f:
       json.dump(ev, f, indent=1, ensure_ascii=False, default=str)
     for l in lines:
       print(l)
